@@ -33,8 +33,8 @@ VARIANTS = {
     # name: (cc, cflags for library+drivers, use rename shim, threading config, ldflags, drivers)
     "asan": dict(
         cc="gcc",
-        cflags="-O1 %s -fsanitize=address,undefined,float-cast-overflow -fno-sanitize-recover=all" % SAN_COMMON,
-        shim=True, threading=False, ld="-lm -ldl -lpthread",
+        cflags="-O1 %s -fno-pie -fsanitize=address,undefined,float-cast-overflow -fno-sanitize-recover=all" % SAN_COMMON,
+        shim=True, threading=False, ld="-no-pie -lm -ldl -lpthread",
         drivers=["jcdrv", "splitdrv", "faultdrv", "lhenum"]),
     "plain": dict(
         cc="gcc", cflags="-O1 -g", shim=True, threading=False, ld="-lm -ldl -lpthread",
